@@ -11,6 +11,7 @@
 //   TAKE kind n2 nz fam t0 h acc umin umax tMax | nd | y0 | M | C      (umin/umax < 0: not set)
 //        -> T status tAdv hTaken hNext nErrFail nAttempt nConvFail | y1(n)
 //        initialize; stepTo(inf, tMax) twice with ReturnEveryInternalStep (first call = StartOfContinuousInterval)
+//   STEPI / TAKEI: as STEP / TAKE with setUseInfinityNorm(true);  NORM useInf n2 nz | nd | y0 | yerr -> N norm worstY
 //   ADJ acc h0 umin umax k | err errOrder limited (k times)
 //        -> A cur0 | ok h' (k times)       adjustStepSize called k times in a row on a RungeKuttaMerson integrator
 //   HERM n t0 t1 t | y0 | f0 | y1 | f1    -> H yt(n)
@@ -156,7 +157,7 @@ int main() {
         std::istringstream in(line);
         std::string cmd; in >> cmd;
         try {
-            if (cmd == "STEP") {
+            if (cmd == "STEP" || cmd == "STEPI") {      // STEPI: the same with setUseInfinityNorm(true)
                 int kind; OdeDef d; in >> kind >> d.n2 >> d.nz >> d.fam;
                 const Real t0 = rd(in), h = rd(in), acc = rd(in);
                 Vector y0; if (!readOde(in, d, y0)) { printf("BAD\n"); continue; }
@@ -164,6 +165,7 @@ int main() {
                 State s = sys.getDefaultState(); s.updTime() = t0; s.updY() = y0;
                 std::unique_ptr<Integrator> integ(makeInteg(kind, sys, h));
                 integ->setAccuracy(acc);
+                if (cmd == "STEPI") integ->setUseInfinityNorm(true);
                 integ->initialize(s);
                 IntegratorRep& rep = IPeek::rep(*integ);
                 AbstractIntegratorRep& arep = dynamic_cast<AbstractIntegratorRep&>(rep);
@@ -175,7 +177,7 @@ int main() {
                 const Real en = conv ? rep.calcErrorNorm(rep.getAdvancedState(), yErr, worst) : NaN;
                 printf("R %d %d %d %a |", (int)conv, ord, nit, (double)en);
                 pv(rep.getAdvancedState().getY()); printf(" |"); pv(yErr); printf("\n");
-            } else if (cmd == "TAKE") {
+            } else if (cmd == "TAKE" || cmd == "TAKEI") {
                 int kind; OdeDef d; in >> kind >> d.n2 >> d.nz >> d.fam;
                 const Real t0 = rd(in), h = rd(in), acc = rd(in), umin = rd(in), umax = rd(in), tMax = rd(in);
                 Vector y0; if (!readOde(in, d, y0)) { printf("BAD\n"); continue; }
@@ -186,6 +188,7 @@ int main() {
                 if (umin >= 0) integ->setMinimumStepSize(umin);
                 if (umax >= 0) integ->setMaximumStepSize(umax);
                 integ->setReturnEveryInternalStep(true);
+                if (cmd == "TAKEI") integ->setUseInfinityNorm(true);
                 integ->initialize(s);
                 Integrator::SuccessfulStepStatus st = integ->stepTo(Infinity, tMax);
                 st = integ->stepTo(Infinity, tMax);
@@ -193,6 +196,27 @@ int main() {
                        (double)integ->getPreviousStepSizeTaken(), (double)integ->getPredictedNextStepSize(),
                        integ->getNumErrorTestFailures(), integ->getNumStepsAttempted(), integ->getNumConvergenceTestFailures());
                 pv(integ->getAdvancedState().getY()); printf("\n");
+            } else if (cmd == "NORM") {
+                // NORM useInf n2 nz | nd | y0 | yerr  -> N norm worstY : calcErrorNorm called directly on a given error
+                // estimate, with the scales frozen from y0 (as at the start of a step)
+                int useInf; OdeDef d; in >> useInf >> d.n2 >> d.nz; d.fam = 0;
+                const int n = 2*d.n2 + d.nz, m = d.n2 + d.nz;
+                d.nd.resize(d.n2); for (auto& x : d.nd) x = rd(in);
+                Vector y0(n), yErr(n);
+                for (int i = 0; i < n; ++i) y0[i] = rd(in);
+                for (int i = 0; i < n; ++i) yErr[i] = rd(in);
+                d.M.assign(m*n, 0.0); d.C.assign(m*5, 0.0);
+                OdeSystem sys(d); sys.realizeTopology();
+                State s = sys.getDefaultState(); s.updTime() = 0; s.updY() = y0;
+                RungeKuttaMersonIntegrator integ(sys);
+                if (useInf) integ.setUseInfinityNorm(true);
+                integ.initialize(s);
+                IntegratorRep& rep = IPeek::rep(integ);
+                sys.realize(rep.getAdvancedState(), Stage::Acceleration);
+                RPeek::save(rep, rep.getAdvancedState());
+                int worst = -1;
+                const Real en = rep.calcErrorNorm(rep.getAdvancedState(), yErr, worst);
+                printf("N %a %d\n", (double)en, worst);
             } else if (cmd == "ADJ") {
                 const Real acc = rd(in), h0 = rd(in), umin = rd(in), umax = rd(in); int k; in >> k;
                 OdeDef d; d.nz = 1; d.M.assign(1, 0.0); d.C.assign(5, 0.0);
